@@ -528,6 +528,110 @@ def reuse_history(rng, cat, idx):
     return dict(label="reuse%d" % idx, dicts=[], images=images, boots=boots)
 
 
+# ------------------------------------------------------------- structured images (long runs of equal bytes)
+KIB = 1024            # the generator's own unit for laying out images (the protocol's block size is the spec's)
+
+
+def structured_images(rng, large):
+    """Images as linkers, flash dumps and padding tools really produce them - unlike random bytes they contain long
+    runs of equal bytes: [(shape name, bytes)...].  Every shape comes in a size that is an exact multiple of
+    1 KiB and in one that is not; the contents that are not prescribed by the shape are random."""
+    rnd = lambda n: [rng.randrange(1, 256) for _ in range(n)]        # "code": no zero byte at all
+    any_ = lambda n: [rng.randrange(256) for _ in range(n)]
+    whole = lambda: rng.choice([2, 3, 3, 4, 5, 6]) * KIB             # exact multiples of 1 KiB, 2..6 blocks
+    ragged = lambda: rng.choice([2, 2, 3, 4, 5]) * KIB + 4 * rng.randint(1, 255)
+    out = []
+
+    def add(name, img):
+        assert len(img) % 4 == 0 and MIN_IMAGE <= len(img) < SIZE_LIMIT, (name, len(img))
+        out.append((name, img))
+
+    for tag, size in (("whole", whole), ("ragged", ragged)):
+        # zeros from a 1 KiB boundary to the end (a zero-initialised section that starts on a boundary)
+        n = size()
+        k = rng.randint(1, (n - 1) // KIB)
+        add("zero-tail-from-boundary/" + tag, rnd(k * KIB) + [0] * (n - k * KIB))
+        # zeros from the middle of a block to the end, over at least one further block
+        n = size()
+        k = rng.randint(0, (n - 1) // KIB - 1)
+        cut = k * KIB + rng.choice([4 * rng.randint(129, 255), rng.randint(513, 1023)])
+        add("zero-tail-from-mid-block/" + tag, rnd(cut) + [0] * (n - cut))
+        # zeros in front (the first block still gets the configuration area), data afterwards
+        n = size()
+        k = rng.randint(min(2, (n - 1) // KIB), (n - 1) // KIB)
+        add("zero-head/" + tag, [0] * (k * KIB) + rnd(n - k * KIB))
+        # one or two zero blocks in the middle
+        n = max(size(), 3 * KIB + (4 if tag == "ragged" else 0))
+        last = (n - 1) // KIB                                        # index of the last block
+        k = rng.randint(1, last - 1)
+        m = rng.randint(1, min(2, last - k))
+        add("zero-blocks-in-the-middle/" + tag, rnd(k * KIB) + [0] * (m * KIB) + rnd(n - (k + m) * KIB))
+        # one byte value throughout: 0x00 (a blank image), 0xff (erased flash), another value
+        add("all-zero/" + tag, [0] * size())
+        add("all-0xff/" + tag, [255] * size())
+        add("all-one-value/" + tag, [rng.choice([1, 0x55, 0x80, 0xfe])] * size())
+        # every block has the same contents (the last one a prefix of it); every word the same
+        n = size()
+        blk = any_(KIB)
+        add("every-block-identical/" + tag, (blk * (n // KIB + 1))[:n])
+        n = size()
+        add("every-word-identical/" + tag, (any_(4) * (n // 4))[:n])
+        # two alternating blocks: each block equals the one two before it
+        n = size()
+        a, b = any_(KIB), any_(KIB)
+        add("blocks-alternate/" + tag, ((a + b) * (n // (2 * KIB) + 1))[:n])
+        # a linked program: code, constants, initialised data, then the zero-initialised data section - as the
+        # linker lays them out, the sections are word aligned, not block aligned
+        n = size()
+        code = 4 * rng.randint(140, (n - KIB) // 4 - 40)
+        data = 4 * rng.randint(1, 30)
+        add("program-with-zeroed-data-section/" + tag, rnd(code) + any_(data) + [0] * (n - code - data))
+        # the same with a check word after the zeros (only the very last word is not zero)
+        n = size()
+        code = 4 * rng.randint(140, (n - KIB) // 4 - 40)
+        add("zeroed-section-then-check-word/" + tag, rnd(code) + [0] * (n - code - 4) + rnd(4))
+        # zero words at the edges of every block (first and last word of each block, last words of the image)
+        n = size()
+        img = rnd(n)
+        for lo in range(0, n, KIB):
+            for p in list(range(lo, lo + 4)) + list(range(min(lo + KIB, n) - 4, min(lo + KIB, n))):
+                img[p] = 0
+        add("zero-words-at-block-edges/" + tag, img)
+        # zeros only inside the last block (the tail of the image is zero, but for less than a block)
+        n = size()
+        lastlen = n - (n - 1) // KIB * KIB
+        z = 4 * rng.randint(1, max(1, lastlen // 4 - 1))
+        add("zero-tail-inside-last-block/" + tag, rnd(n - z) + [0] * z)
+    # the smallest and the largest images: one block and a bit; close to the size limit
+    add("zero-tail-from-boundary/1028", rnd(KIB) + [0] * 4)
+    add("zero-tail-from-mid-block/1536", rnd(600) + [0] * 936)
+    add("all-zero/1024", [0] * KIB)
+    if large >= 1:
+        add("program-with-zeroed-data-section/31KiB", rnd(3 * KIB + 40) + [0] * (28 * KIB - 40))
+    if large >= 2:
+        add("zero-blocks-in-the-middle/32764", rnd(9 * KIB) + [0] * (14 * KIB) + rnd(9 * KIB - 4))
+    return out
+
+
+def structured_histories(rng, cat, large):
+    """boots of structured images, two or three images per history (so an image also follows a longer or shorter
+    one in the same process), through boot() and MachineController.boot(), with and without options"""
+    imgs = structured_images(rng, large)
+    rng.shuffle(imgs)
+    hs = []
+    while imgs:
+        group, imgs = imgs[:3], imgs[3:]
+        boots = []
+        for j, (name, _) in enumerate(group):
+            via = rng.choice(["boot", "boot", "mc", "mc_if_needed"])
+            boots.append(dict(via=via, dict=None, kw=_own_kw(rng, cat, ()) if rng.random() < 0.5 else {},
+                              host="10.4.%d.%d" % (len(hs) % 250, j + 1), port=rng.choice([None, None, 12345]),
+                              image=j, shape=name))
+        hs.append(dict(label="structured%d:%s" % (len(hs), ">".join(n for n, _ in group)), dicts=[],
+                       images=[img for _, img in group], boots=boots, one_path=rng.random() < 0.3))
+    return hs
+
+
 # ---------------------------------------------------------------------------------- the check
 def key_of(tr, i, clauses):
     ev = tr["ev"][i - 1]
@@ -571,12 +675,23 @@ def run(chk):
     histories += [struct_history(rng2, cat, i, bundled_image=i < chk.pick(3, 10)) for i in range(nstruct)]
     histories += [edit_history(rng2, cat, i) for i in range(chk.pick(8, 100))]
     histories += [reuse_history(rng2, cat, i) for i in range(chk.pick(10, 100))]
+    # structured images (again their own stream of random numbers); the thorough tier lays them out several times
+    rng3 = random.Random(chk.seed * 104729 + 20)
+    shape_of = {}
+    for _ in range(chk.pick(1, 12)):
+        for h in structured_histories(rng3, cat, large=chk.pick(0, 2)):
+            h["label"] = "structured%d:%s" % (len(shape_of), h["label"].split(":", 1)[1])
+            shape_of[h["label"]] = [b["shape"] for b in h["boots"]]
+            histories.append(h)
     traces = run_histories(histories)
     for h, t in zip(histories, traces):
         boots = [e[1] for e in t["ev"] if e[0] == "boot"]
         chk.note_case([(b["via"], b["opts"], len(b["image"]), b["info"]["dict"], b["svdef"], b["info"]["extra"],
                         b["info"]["mc_obj"], b["info"]["edited"]) for b in boots],
                       nontrivial=len(boots) >= 2 and any(b["opts"] for b in boots))
+        for shape in shape_of.get(h["label"], ()):
+            chk.count("boots of structured images")
+            chk.count("boots of structured images: " + shape.split("/")[0])
         for b in boots:
             chk.count("boots")
             chk.count("boots via " + b["via"])
@@ -620,7 +735,14 @@ def run(chk):
                 "its sv_overrides dictionary in place between boots (adds, changes, removes names), histories in "
                 "which one board is booted again (the same MachineController object, or boot() with the same host) "
                 "with the delays and the controller's deprecated width / height passed explicitly; at the end of "
-                "every history the struct definitions each boot returned are projected once more; "
+                "every history the struct definitions each boot returned are projected once more; then histories of "
+                "2-3 boots of structured images, each shape in a size that is an exact multiple of 1 KiB (2-6 KiB) "
+                "and in one that is not (zeros from a 1 KiB boundary to the end, zeros from the middle of a block "
+                "over at least one further block, zeros only inside the last block, zeros in front, one or two zero "
+                "blocks in the middle, all 0x00, all 0xff, all one other value, every block identical, every word "
+                "identical, two alternating blocks, a linked program whose zero-initialised data section ends the "
+                "image, the same followed by one check word, zero words at both edges of every block; 1024 / 1028 / "
+                "1536 bytes as well, in the thorough tier also 31 KiB and 32764 bytes); "
                 "non-trivial = at least two boots and at least one option; distinct = distinct (via, options, image "
                 "size, dictionary use) sequences")
     chk.assumptions += [
